@@ -12,6 +12,7 @@ package rules
 
 import (
 	"bytes"
+	"encoding/hex"
 	"encoding/json"
 	"encoding/pem"
 	"fmt"
@@ -694,6 +695,14 @@ func (r *c19Repo) UpdateRuleSet(src string, rules []rule.Rule) error {
 	return err
 }
 
+func c19RuleKey(id string, hash []byte) string {
+	if len(hash) > 4 {
+		hash = hash[:4]
+	}
+
+	return id + "#" + hex.EncodeToString(hash)
+}
+
 func c19IDs(repo rule.Repository, src string) []string {
 	var ids []string
 
@@ -703,7 +712,8 @@ func c19IDs(repo rule.Repository, src string) []string {
 
 	for _, k := range r.knownRules {
 		if k.SrcID() == src {
-			ids = append(ids, k.ID())
+			// id and content: a rejected update must leave the RULES, not only their ids
+			ids = append(ids, c19RuleKey(k.ID(), k.(*ruleImpl).hash))
 		}
 	}
 
@@ -715,6 +725,7 @@ func c19IDs(repo rule.Repository, src string) []string {
 // ---- cases ----------------------------------------------------------------
 
 type c19RuleCase struct {
+	Env     bool   `json:"env_vars_enabled,omitempty"`
 	CT      string `json:"content_type,omitempty"` // default application/yaml
 	Base    int    `json:"base"`
 	How     string `json:"how"`
@@ -822,6 +833,8 @@ func TestVerifC19Rules(t *testing.T) {
 	w := vf.NewWriter()
 	defer w.Close()
 
+	t.Setenv("C19_X", "from-env")
+
 	env := c19Setup(t)
 	root := vf.NewRand(vf.Seed())
 	quick := os.Getenv("VERIF_TIER") == "quick"
@@ -913,6 +926,36 @@ func TestVerifC19Rules(t *testing.T) {
 					if text, ok := c19Marshal(c19Edit(c19Clone(base), p, op)); ok {
 						add(bi, fmt.Sprint(p, " edit", op), text)
 					}
+				}
+			}
+		}
+	}
+
+	// value-level malformed strings at every string leaf: template, regex / glob, URL, CEL, environment
+	// substitution syntax, NUL, very long values
+	badStrings := []string{"{{", "{{ .Subject.ID", "}}", "(", "[a-", "*", "**", "://", "http://[::1", "%zz", "${", "${C19_X}", "$C19_X",
+		"${C19_X", "$", "\x00", strings.Repeat("a", 1<<14), "a:b:c", ":", "\n- x", "1 +", "\"", "!", "0s", "-1s", "9999999h"}
+
+	for bi, base := range bases {
+		var ps [][]any
+
+		c19Paths(base, nil, &ps)
+
+		n := 0
+
+		for _, p := range ps {
+			if _, isStr := c19Get(base, p).(string); !isStr {
+				continue
+			}
+
+			for vi, v := range badStrings {
+				n++
+				if quick && (n+bi)%5 != 0 {
+					continue
+				}
+
+				if text, ok := c19Marshal(c19Set(c19Clone(base), p, v)); ok {
+					add(bi, fmt.Sprint(p, " string-value ", vi), text)
 				}
 			}
 		}
@@ -1066,6 +1109,7 @@ func TestVerifC19Rules(t *testing.T) {
 		c := cases[i]
 		r := root.Fork(uint64(1000000 + i))
 		c.Proxy, c.Default = r.Chance(70), r.Chance(30)
+		c.Env = r.Chance(30) || strings.Contains(c.How, "string-value")
 		c.Op = "created"
 
 		if r.Chance(50) {
@@ -1103,12 +1147,12 @@ func TestVerifC19Rules(t *testing.T) {
 				ct = "application/yaml"
 			}
 
-			rs, perr = config2.ParseRules(ct, bytes.NewReader([]byte(c.Text)), false)
+			rs, perr = config2.ParseRules(ct, bytes.NewReader([]byte(c.Text)), c.Env)
 		})
 
 		rulesCoq := "PRejected"
 		version := ""
-		tags := []string{"op=" + c.Op}
+		tags := []string{"op=" + c.Op, fmt.Sprintf("env=%v", c.Env)}
 
 		var outCoq string
 
@@ -1131,7 +1175,8 @@ func TestVerifC19Rules(t *testing.T) {
 			for k := range rs.Rules {
 				// the oracle calls work on a deep copy: createMethodMatcher sorts and compacts its argument in place
 				rc := c19CopyRule(rs.Rules[k])
-				items[k] = vf.CoqApp("rl", vf.CoqStr(rc.ID), c19Steps(env.hf, rc.Execute, false), c19Steps(env.hf, rc.ErrorHandler, true),
+				hash, _ := rc.Hash()
+				items[k] = vf.CoqApp("rl", vf.CoqStr(c19RuleKey(rc.ID, hash)), c19Steps(env.hf, rc.Execute, false), c19Steps(env.hf, rc.ErrorHandler, true),
 					vf.CoqBool(rc.Backend != nil), c19Rest(rc))
 			}
 
